@@ -260,7 +260,7 @@ def run_shard(pid, facet: Facet, tier, seed, shard, nshards) -> dict:
             if v is not None:
                 stats.violations.append({"bucket": v.bucket, "message": v.message, "case": to_jsonable(v.case)})
             else:
-                raise HarnessError(f"facet {facet.name} shard {shard}: {type(e).__name__}: {e}\n{traceback.format_exc()}")
+                raise HarnessError(f"facet {facet.name} shard {shard}: {type(e).__name__}: {str(e)[:300]}\n{traceback.format_exc()[-2500:]}")
     stats.notes.append(f"shard {shard}: {time.time() - t0:.1f}s")
     return stats.to_dict()
 
